@@ -57,6 +57,8 @@ def _run(prop, prefixes, what, tier, seed, replay, extra=None):
         engine.model_trace_stage(rep, tier, seed, prefixes)
     if prop in ("C01", "C02"):
         engine.api_stage(rep, tier, seed, prefixes)
+    if prop in ("C01", "C02", "C03", "C17"):
+        engine.compiled_stage(rep, tier, seed, prop, prefixes)
     if prop == "C08":
         engine.trigger_stage(rep, tier, seed)
         engine.init_stage(rep, tier, seed, ("C08:",))
